@@ -41,11 +41,19 @@ MCInstall ==
     /\ InstallSnapshot(m, curSnap[n][1])
     /\ hist' = Append(hist, [op |-> "install", m |-> m, from |-> n])
 
+MCInstallCorrupt ==
+  \E m \in Nodes, n \in Nodes :
+    /\ m # n /\ curSnap[n] # None
+    /\ curSnap[n][1].last >= lastApplied[m]
+    /\ (IF lastInstall = None THEN TRUE ELSE ~lastInstall[1].corrupt)     \* once in a row is enough
+    /\ InstallCorruptSnapshot(m, curSnap[n][1])
+    /\ hist' = Append(hist, [op |-> "install", m |-> m, from |-> n, corrupt |-> TRUE])
+
 MCGetSnap ==
   \E n \in Nodes : GetCurrentSnapshot(n, curSnap[n]) /\ UNCHANGED hist
 
 MCInit == Init /\ hist = <<>>
-MCNext == MCCommit \/ MCApply \/ MCBuild \/ MCInstall \/ MCGetSnap
+MCNext == MCCommit \/ MCApply \/ MCBuild \/ MCInstall \/ MCInstallCorrupt \/ MCGetSnap
 MCSpec == MCInit /\ [][MCNext]_mvars
 
 View == svars
